@@ -16,6 +16,7 @@ CONSTANTS
   MaxClock = 3
 SPECIFICATION SSpec
 CONSTRAINT ClockBound
+VIEW SView
 INVARIANTS Inv_Size Inv_TotalExact Inv_TotalBound Inv_Coherent Inv_Unique Inv_MissServesFile Inv_Fresh Inv_CachedWasFile
 PROPERTIES Act_ImmediatelyRetrievable Act_HandlerCoherent
 CHECK_DEADLOCK FALSE
